@@ -11,13 +11,13 @@ LEVEL = "exploration"
 RULE = ("Domain = optimizers classified structurally elitist from their source (baselines/elitist.json: all exported "
         "optimizers minus the listed non-elitist ones; Brain Storm x2 and Henry Gas only with a population divisible "
         "by their cluster count, constructed that way). Hypothesis draws RunSpecs (min and max tasks, all encodings, "
-        "3..12 cycles quick / ..30 thorough, fitness_error/early stopping off so that runs are long). Oracle: best "
+        "3..20 cycles quick / ..30 thorough, fitness_error/early stopping off so that runs are long). Oracle: best "
         "cost of generation k+1 is never worse than that of generation k in the task's direction, and "
         "best_solution.cost is the best cost ever recorded. Non-trivial = run whose best cost strictly improves at "
         "least once (elitism had something to keep) with >= 3 cycles; distinct = SHA-256 of the spec.")
 ASSUMPTIONS = ["the elitist classification (baselines/elitist.json) is a reading of the sources and errs on the side "
                "of not claiming", "runs that raise are C06's business"]
-BUDGET = {"quick": 40, "thorough": 500}
+BUDGET = {"quick": 50, "thorough": 500}
 
 with open(os.path.join(VERIF_ROOT, "baselines", "elitist.json")) as _fh:
     TABLE = json.load(_fh)
@@ -29,7 +29,7 @@ def domain():
 
 @st.composite
 def config(draw, optimizer, tier):
-    c = draw(strategies.config_spec(optimizer, max_cycles=(3, 12 if tier == "quick" else 30), stopping=False,
+    c = draw(strategies.config_spec(optimizer, max_cycles=(3, 20 if tier == "quick" else 30), stopping=False,
                                     perturb=0.15, min_cycles=3))
     if optimizer in TABLE["preconditions"]:
         # keep the population divisible by the cluster count: documented clusters, integer multiples only
